@@ -338,6 +338,7 @@ package cache
 // entry"; it is forgotten whenever a shard lock is acquired, because another
 // request may have replaced the entry in the meantime.
 //@ fnfield cacheFunctions.cacheIterator() (key CacheKey, meta ptr)
+//@   ghost blocks-at 2
 //@   ensures meta != nil && allocated(meta) && meta.Size >= 0 && meta.Expires == jexp(key)
 
 //@ lock cacheJanitor.none level 9
@@ -477,10 +478,12 @@ package cache
 //@ func cacheJanitor.stop
 //@   nopanic
 
-// The iterators handed to the janitor walk a snapshot taken under mu, never the live map.
+// The iterators handed to the janitor walk a snapshot taken under mu, never the live map, and
+// never wait for a shard lock (a store evicts while holding its own shard).
 //@ props C15 C14 C16
 //@ func NewMemoryCache$3
 //@   nopanic
+//@   ghost blocks-at 2
 //@   ghost callback yield assigns nothing
 //@   requires specMemInv(c)
 //@   loop 1 invariant forall k key :: in(snapshot, k) ==> snapshot[k] != nil
@@ -488,6 +491,7 @@ package cache
 //@ props C15 C14 C16
 //@ func NewFileCache$2
 //@   nopanic
+//@   ghost blocks-at 2
 //@   ghost callback yield assigns nothing
 //@   requires c.entriesMetadata != nil
 
